@@ -747,14 +747,14 @@ func runTables(r *ev.Run, only, shard, nshards int) {
 				ready = true
 				// the agent: connect ok, some data, close
 				se.tasks(cbConnect(sid, true, 0))
-				if sc.full || r.Thorough() {
+				if sc.full || (r.Thorough() && si < 2) {
 					se.tasks(cbRead(sid, []byte("data")))
 				}
 				se.tasks(cbClose(sid))
 			})
 			se.s.Spawn("operator", func() {
 				se.s.Block("operator waits for the setup", func() bool { return ready })
-				if sc.full || r.Thorough() {
+				if sc.full || (r.Thorough() && si < 2) {
 					se.socksCmd("socks list", "")
 				}
 				se.socksCmd(sc.opCmd[0], sc.opCmd[1])
@@ -762,7 +762,7 @@ func runTables(r *ev.Run, only, shard, nshards int) {
 					se.socksCmd("socks clear", "")
 				}
 			})
-			if sc.full || r.Thorough() {
+			if sc.full || (r.Thorough() && si < 2) {
 				se.s.Spawn("client", func() {
 					se.s.Block("client waits for the setup", func() bool { return ready })
 					conn.Feed([]byte("hello"))
@@ -930,7 +930,10 @@ func Run(r *ev.Run) {
 	}
 	for k := 0; k < 4; k++ {
 		k := k
-		items = append(items, func(r *ev.Run) { runTablesTwoHandshakes(r, k, 4) })
+		items = append(items, func(r *ev.Run) { runTablesTwoHandshakes(r, k, 4, false) })
+		if r.Thorough() {
+			items = append(items, func(r *ev.Run) { runTablesTwoHandshakes(r, k, 4, true) })
+		}
 	}
 	r.Bounds["work_items"] = len(items)
 	par.Run(r, len(items), 30*time.Minute, func(i, n int, r *ev.Run) {
@@ -939,7 +942,7 @@ func Run(r *ev.Run) {
 			runIntegrity(r)
 			runTables(r, -1, 0, 1)
 			runTablesThreeClients(r, 0, 1)
-			runTablesTwoHandshakes(r, 0, 1)
+			runTablesTwoHandshakes(r, 0, 1, false)
 			return
 		}
 		items[i](r)
